@@ -180,7 +180,7 @@ func (s *fakeStore) UpdateData(sm *swap.SwapStateMachine) error {
 	}
 	e.served.Store = append(e.served.Store, ok)
 	e.mu.Unlock()
-	e.effect(fmt.Sprintf("EPersist %s %s", CoqStr(string(sm.Current)), coqData(sm.Data, string(sm.Current))),
+	e.effect(fmt.Sprintf("EPersist %s %s %s", CoqStr(string(sm.Current)), coqData(sm.Data, string(sm.Current)), CoqBool(ok)),
 		map[string]interface{}{"e": "Persist", "state": string(sm.Current)})
 	if !ok {
 		return errFake
